@@ -439,3 +439,47 @@ Proof. exact source_apply_ampdel. Qed.
 Theorem C14_source_wrapper : forall (enc : list seg -> Z) (name : string) (f : filt) (t : list seg),
   Gen.FnSegWrap.fn_wrapped (enc t) name (enc (apply_filter f t)) = enc (apply_filter f t).
 Proof. exact source_wrapped_filter. Qed.
+
+(* ==== LOOP TIES, wave e4 (tools/fnspecs/c14_e4.py) ====
+   do_call's two filter loops (cnvlib/call.py), one iteration each translated from the source text on every run
+   (Gen/FnCallPreFilter.v, Gen/FnCallPostFilter.v).  The table the loops carry is an opaque value, instantiated with the
+   trace of filter names applied so far and read back by FnCallPreFilter.table_of (the named filters of the model applied
+   in order). *)
+From CNV Require Import Proofs.FnCallPreFilter Proofs.FnCallPostFilter.
+From CNV Require Gen.FnCallPreFilter Gen.FnCallPostFilter.
+
+(* `for filt in ("ci", "sem")`, one iteration: a filter that was asked for is applied now and taken off the list *)
+Theorem C14_source_pre_step : forall (p : filt) (tr : list string) (fs : list filt),
+  py_pre_iter (tr, map name_of fs) (name_of p)
+  = if memf p fs then (tr ++ [name_of p], map name_of (remove_first p fs)) else (tr, map name_of fs).
+Proof. exact source_pre_step. Qed.
+
+(* ... and the model's pre_steps IS that generated step folded over the tuple: same table, same remaining list *)
+Theorem C14_source_pre_steps : forall (t : list seg) (fs : list filt),
+  let L := py_pre_loop (map name_of fs) in
+  let r := pre_steps pre_filters t fs in
+  fst r = table_of t (fst L) /\ map name_of (snd r) = snd L.
+Proof. exact source_pre_steps. Qed.
+
+(* `for filt in filters`, one iteration: the named filter applied to the carried table *)
+Theorem C14_source_post_step : forall (f : filt) (t : list seg) (tr : list string),
+  table_of t (py_post_iter tr (name_of f)) = apply_filter f (table_of t tr).
+Proof. exact source_post_step. Qed.
+
+(* ... and apply_seq IS that generated step folded over the remaining filters, in the order given *)
+Theorem C14_source_apply_seq : forall (fs : list filt) (t : list seg),
+  apply_seq fs t = table_of t (py_post_loop (map name_of fs) []).
+Proof. exact source_apply_seq. Qed.
+
+(* the filter handling of do_call (the function C14_order is about) = the two generated loops around the calling step *)
+Theorem C14_source_call_with_filters : forall (call : list seg -> list seg) (fs : list filt) (t : list seg),
+  call_with_filters call fs t =
+  let L := py_pre_loop (map name_of fs) in
+  table_of (call (table_of t (fst L))) (py_post_loop (snd L) []).
+Proof. exact source_call_with_filters. Qed.
+
+(* the reading is not vacuous: a run of the generated loops *)
+Example ex_source_filter_loops :
+  py_pre_loop (map name_of [Fampdel; Fsem; Fcn]) = (["sem"%string], ["ampdel"%string; "cn"%string])
+  /\ py_post_loop ["ampdel"%string; "cn"%string] [] = ["ampdel"%string; "cn"%string].
+Proof. vm_compute. split; reflexivity. Qed.
